@@ -11,7 +11,7 @@ Outputs are parsed and compared with the expectation derived from the script's h
 
 Case string (replayable):  script|k=v,k=v|grid|tab|tab|...   with tab = y,y,..;flags[;e,e,..]
 """
-import sys, os, math, itertools, subprocess, shutil
+import sys, os, math, itertools, subprocess, shutil, time
 
 sys.path.insert(0, os.path.join(os.environ.get("VERIF_ROOT", os.path.join(os.path.dirname(os.path.abspath(__file__)), "..")), "lib"))
 import pybsx
@@ -106,10 +106,39 @@ while (my $l=<$J>){
 
 
 class Res:
-    __slots__ = ("ok", "stdout", "err", "out")
+    __slots__ = ("ok", "stdout", "err", "out", "hang")
 
-    def __init__(self, ok, stdout, err, out):
-        self.ok, self.stdout, self.err, self.out = ok, stdout, err, out
+    def __init__(self, ok, stdout, err, out, hang=False):
+        self.ok, self.stdout, self.err, self.out, self.hang = ok, stdout, err, out, hang
+
+
+STATS = {"timeouts_retried": 0, "spawn_retried": 0}
+T_DIRECT, T_BATCH = float(os.environ.get("C19_T_DIRECT", 120)), float(os.environ.get("C19_T_BATCH", 300))        # seconds; a process that exceeds its limit is re-run ALONE with 10x the limit
+
+
+def spawn(cmd, env, limit, stderr=subprocess.PIPE):
+    """run one process; no exception escapes.  -> (rc | None if it did not end within the limit, stdout, stderr)
+    A fork/exec failure of an overloaded machine (EAGAIN, ENOMEM) is not a result: wait and try again."""
+    for attempt in range(10):
+        try:
+            p = subprocess.run(cmd, env=env, stdout=subprocess.PIPE, stderr=stderr, timeout=limit)
+            return p.returncode, p.stdout or b"", p.stderr or b""
+        except subprocess.TimeoutExpired as e:
+            return None, e.stdout or b"", e.stderr or b""
+        except OSError as e:
+            STATS["spawn_retried"] += 1
+            last = e
+            time.sleep(3)
+    return -999, b"", ("could not start %s: %s" % (cmd[0], last)).encode()
+
+
+def spawn_patient(cmd, env, limit, stderr=subprocess.PIPE):
+    """spawn; a time-out is repeated once, alone, with a 10x longer limit.  rc None = timed out twice (hang)"""
+    rc, out, err = spawn(cmd, env, limit, stderr)
+    if rc is None:
+        STATS["timeouts_retried"] += 1
+        rc, out, err = spawn(cmd, env, 10 * limit, stderr)
+    return rc, out, err
 
 
 def plan(case):
@@ -195,7 +224,10 @@ def perl_env():
     return env
 
 
-def run_direct(case, tag="d"):
+HUNG = set()      # scripts found not to terminate (alone, 10x limit): their remaining cases are not started
+
+
+def run_direct(case, tag="d", alone=False):
     script, texts, a, envv, outfile = plan(case)
     names = []
     for k, t in enumerate(texts):
@@ -209,14 +241,19 @@ def run_direct(case, tag="d"):
     env = perl_env()
     if envv != "-":
         env["VOTCA_TABLES_WITHOUT_FLAG"] = envv
-    p = subprocess.run([PERL, os.path.join(SDIR, FILES[script])] + argv, env=env, stdout=subprocess.PIPE,
-                       stderr=subprocess.PIPE, timeout=120)
+    if alone:       # --case replay: nothing else runs in this harness, the long limit applies at once
+        rc, so, se = spawn([PERL, os.path.join(SDIR, FILES[script])] + argv, env, 10 * T_DIRECT)
+    else:
+        rc, so, se = spawn_patient([PERL, os.path.join(SDIR, FILES[script])] + argv, env, T_DIRECT)
+    if rc is None:
+        HUNG.add(script)
+        return Res(False, so.decode(errors="replace"), "did not terminate within %d s and, re-run alone, within %d s" % (T_DIRECT, 10 * T_DIRECT), None, True)
     out = open(outn).read() if (outfile and os.path.exists(outn)) else None
-    return Res(p.returncode == 0, p.stdout.decode(errors="replace"), p.stderr.decode(errors="replace").strip(), out)
+    return Res(rc == 0, so.decode(errors="replace"), se.decode(errors="replace").strip(), out)
 
 
-def run_batch(cases):
-    """run a chunk through one perl interpreter; any case without a delivered result is re-run directly"""
+def batch_once(cases, limit):
+    """one perl interpreter over the cases -> results of the leading cases it delivered (possibly fewer than asked)"""
     if not os.path.exists("c19_driver.pl"):
         open("c19_driver.pl", "w").write(DRIVER)
     lines, plans = [], []
@@ -229,25 +266,37 @@ def run_batch(cases):
             lines.append(t[:-1])
         plans.append(outfile)
     open("c19_jobs", "w").write("\n".join(lines) + "\n")
-    try:
-        p = subprocess.run([PERL, "c19_driver.pl", "c19_jobs"], env=perl_env(), stdout=subprocess.PIPE,
-                           stderr=subprocess.DEVNULL, timeout=900)
-        text = p.stdout.decode(errors="replace")
-    except subprocess.TimeoutExpired:
-        text = ""
+    rc, so, se = spawn([PERL, "c19_driver.pl", "c19_jobs"], perl_env(), limit, subprocess.DEVNULL)
+    text = so.decode(errors="replace")
     blocks = text.split("\n\x01END\t")
     res = []
-    for k, case in enumerate(cases):
-        if k + 1 < len(blocks) and "\n\x01OUT\t" in blocks[k]:
-            body = blocks[k]
-            if k > 0:
-                body = body.split("\n", 1)[1] if "\n" in body else ""
-            stdout, rest = body.split("\n\x01OUT\t", 1)
-            have, content = rest[0] == "1", rest[2:]
-            st = blocks[k + 1].split("\n", 1)[0].split("\t", 1)
-            res.append(Res(st[0] == "0", stdout, st[1] if len(st) > 1 else "", content if (have and plans[k]) else None))
-        else:
-            res.append(run_direct(case, "fb"))
+    for k in range(len(cases)):
+        # a block counts only if its END line is complete (the process may have been killed in the middle of a print)
+        if not (k + 1 < len(blocks) and "\n\x01OUT\t" in blocks[k] and "\n" in blocks[k + 1]):
+            break
+        body = blocks[k]
+        if k > 0:
+            body = body.split("\n", 1)[1]
+        stdout, rest = body.split("\n\x01OUT\t", 1)
+        have, content = rest[0] == "1", rest[2:]
+        st = blocks[k + 1].split("\n", 1)[0].split("\t", 1)
+        res.append(Res(st[0] == "0", stdout, st[1] if len(st) > 1 else "", content if (have and plans[k]) else None))
+    return res, rc is None
+
+
+def run_batch(cases):
+    """run a chunk through perl interpreters.  Where a batch stops early (time limit under load, a script that
+    ends or hangs the interpreter) the first undelivered case is run ALONE in a fresh perl (with the patient
+    time limits of run_direct) and the batch resumes behind it; nothing is dropped, no exception escapes."""
+    res, limit = [], T_BATCH
+    while len(res) < len(cases):
+        part, timed_out = batch_once(cases[len(res):], limit)
+        res += part
+        if timed_out:
+            STATS["timeouts_retried"] += 1
+            limit = 10 * T_BATCH            # the machine is slow: give the following batches the long limit
+        if len(res) < len(cases):
+            res.append(run_direct(cases[len(res)], "fb"))
     return res
 
 
@@ -824,6 +873,8 @@ ORACLE = dict(linearop=o_linearop, scale=o_scale, integrate=o_integrate, shift=o
 
 def evaluate(case, res):
     script, opts, g, tabs = parsecase(case)
+    if res.hang:        # a script that does not terminate even alone with the 10x limit: a real violation
+        return [(script + "-hang", "perl %s %s" % (FILES[script], res.err))], (script, "", "hang")
     c = Chk(script)
     sig = ORACLE[script](c, opts, g, tabs, res)
     return c.fails, (script, ",".join("%s=%s" % kv for kv in sorted(opts.items()) if kv[0] in ("op", "fn", "type", "from", "region")), sig)
@@ -1118,7 +1169,7 @@ def main():
     if "--mode" in a.rest:
         mode = a.rest[a.rest.index("--mode") + 1]
     if a.case is not None:
-        res = run_direct(a.case, "case")
+        res = run_direct(a.case, "case", alone=True)
         fails, sig = evaluate(a.case, res)
         script, texts, argv, envv, outfile = plan(a.case)
         print("case:", a.case)
@@ -1139,6 +1190,12 @@ def main():
     nsample = {}
 
     def flush():
+        if HUNG:
+            skipped = [cs for cs in chunk if cs.split("|", 1)[0] in HUNG]
+            if skipped:
+                R.cap("script(s) %s do not terminate: their remaining cases were not started (counter not_started_after_hang)" % ",".join(sorted(HUNG)))
+                R.count("not_started_after_hang", len(skipped))
+                chunk[:] = [cs for cs in chunk if cs.split("|", 1)[0] not in HUNG]
         if not chunk:
             return
         results = run_batch(chunk) if mode == "batch" else [run_direct(cs, "d") for cs in chunk]
@@ -1161,6 +1218,11 @@ def main():
         if len(chunk) >= CH:
             flush()
     flush()
+    for k, v in STATS.items():
+        R.count(k, v)
+    if STATS["timeouts_retried"] or STATS["spawn_retried"]:
+        R.assumptions.append("%d process time-outs were repeated alone with a 10x limit, %d process starts repeated (overloaded machine)"
+                             % (STATS["timeouts_retried"], STATS["spawn_retried"]))
     R.write(a.out)
 
 
